@@ -22,26 +22,40 @@ def sh(cmd, cwd=None, env=None, timeout=900):
     return p.returncode, p.stdout.decode('utf-8', 'replace')
 
 
-def run_demo(demo, tree, workdir):
-    env = dict(os.environ, PYTHONPATH=tree, DEPCCG_TREE=tree)
+def run_demo(demo, tree, workdir, outdir):
+    """run a demonstration against `tree`: the agent's whole output directory is copied (helpers included) and every
+    reference to the agent's worktree is redirected to the tree under test."""
+    env_dir = os.path.join(workdir, 'demo_env_' + os.path.basename(tree))
+    if not os.path.exists(env_dir):
+        os.makedirs(env_dir)
+        for root, dirs, files in os.walk(outdir):
+            dirs[:] = [d_ for d_ in dirs if d_ not in ('scratch', '__pycache__')]
+            rel = os.path.relpath(root, outdir)
+            os.makedirs(os.path.join(env_dir, rel), exist_ok=True)
+            for fn in files:
+                src_p = os.path.join(root, fn)
+                dst_p = os.path.join(env_dir, rel, fn)
+                if os.path.getsize(src_p) > 2000000:
+                    continue
+                if fn.endswith(('.py', '.cpp', '.cc', '.h', '.sh', '.hpp')):
+                    txt = open(src_p, errors='replace').read()
+                    txt = re.sub(r'/tmp/wt/C\d\d_out', env_dir, txt)
+                    txt = re.sub(r'/tmp/wt/C\d\d(?![_\d])', tree, txt)
+                    open(dst_p, 'w').write(txt)
+                else:
+                    shutil.copy(src_p, dst_p)
+    env = dict(os.environ, PYTHONPATH=tree + os.pathsep + env_dir, DEPCCG_TREE=tree)
+    d2 = os.path.join(env_dir, os.path.basename(demo))
     if demo.endswith('.py'):
-        src = open(demo).read()
-        # demos written against the agent's worktree path: point them at the tree under test
-        src = re.sub(r'/tmp/wt/C\d\d(?![_\d])', tree, src)
-        d2 = os.path.join(workdir, os.path.basename(demo))
-        open(d2, 'w').write(src)
-        return sh(['/venv/bin/python', d2], cwd=tree, env=env, timeout=600)
+        return sh(['/venv/bin/python', d2], cwd=tree, env=env, timeout=900)
     if demo.endswith(('.cpp', '.cc')):
-        exe = os.path.join(workdir, 'demo_exe')
-        rc, out = sh(['clang++-14', '-std=c++11', '-O1', '-I', tree, demo, '-o', exe])
+        exe = os.path.join(env_dir, 'demo_exe_' + os.path.basename(demo).split('.')[0])
+        rc, out = sh(['clang++-14', '-std=c++11', '-O1', '-I', tree, '-I', env_dir, d2, '-o', exe])
         if rc != 0:
             return 99, 'COMPILE FAILED\n' + out[-800:]
-        return sh([exe], cwd=tree, env=env, timeout=600)
+        return sh([exe], cwd=tree, env=env, timeout=900)
     if demo.endswith('.sh'):
-        src = re.sub(r'/tmp/wt/C\d\d(?![_\d])', tree, open(demo).read())
-        d2 = os.path.join(workdir, os.path.basename(demo))
-        open(d2, 'w').write(src)
-        return sh(['bash', d2], cwd=tree, env=env, timeout=600)
+        return sh(['bash', d2], cwd=tree, env=env, timeout=900)
     return 98, 'unknown demo type'
 
 
@@ -77,8 +91,8 @@ def main():
             info['header_compiles'] = rc == 0
             info['demos'] = []
             for demo in demos:
-                rc_c, out_c = run_demo(demo, clean, d)
-                rc_p, out_p = run_demo(demo, pat, d)
+                rc_c, out_c = run_demo(demo, clean, d, outdir)
+                rc_p, out_p = run_demo(demo, pat, d, outdir)
                 info['demos'].append({'demo': os.path.basename(demo), 'clean_rc': rc_c, 'patched_rc': rc_p,
                                       'clean_tail': out_c.strip().splitlines()[-2:], 'patched_tail': out_p.strip().splitlines()[-3:]})
             info['demo_ok'] = any(x['clean_rc'] == 0 and x['patched_rc'] != 0 for x in info['demos'])
@@ -109,8 +123,14 @@ def main():
             for t in ('clean', 'patched'):
                 sh(['git', '-C', '/repo', 'worktree', 'remove', '--force', os.path.join(d, t)])
             shutil.rmtree(d, ignore_errors=True)
+    json.dump(results, open(os.path.join(outdir, 'ingest.json'), 'w'), indent=1)
     for r in results:
-        print(json.dumps({k: v for k, v in r.items() if k not in ('patch',)}, indent=None)[:1500])
+        print('%s-%s applies=%s suite_ok=%s header=%s demo_ok=%s FIRED=%s ERR=%s' % (r['property'], r['change'], r.get('applies'), r.get('suite_ok'),
+              r.get('header_compiles'), r.get('demo_ok'), ','.join(r.get('fired', [])) or '-', ','.join(r.get('analysis_error', [])) or '-'))
+        for d_ in r.get('demos', []):
+            print('     demo %s clean_rc=%s patched_rc=%s' % (d_['demo'], d_['clean_rc'], d_['patched_rc']))
+        for f in r.get('findings', [])[:2]:
+            print('     ' + f[:230])
     return 0
 
 
